@@ -162,16 +162,16 @@ theorem afterPre_rollover (st : GState) (isB : Bool) : (afterPre st isB).rollove
   unfold afterPre; split <;> rfl
 
 /-- `current_offset` after `align_to_field` -/
-def curAfter (o cur : Option Nat) : Option Nat :=
+def curAfter (al : Bool) (o cur : Option Nat) : Option Nat :=
   match o with
   | some oo => some oo
-  | none => cur
+  | none => if al = true then none else cur
 
 theorem alignToField_snd (cfg : Cfg) (al : Bool) (f : CField) (cur : Option Nat) :
-    (alignToField cfg al f cur).2 = curAfter f.off cur := by
+    (alignToField cfg al f cur).2 = curAfter al f.off cur := by
   unfold alignToField curAfter
   cases f.off with
-  | none => rfl
+  | none => simp only; split <;> rfl
   | some o =>
     simp only
     split
@@ -663,7 +663,11 @@ theorem bits_tail (cfg : Cfg) (al : Bool) (salign : Nat) (name : String) (an : B
         · have := hrollI hnu hr
           rw [this] at hl0
           cases hl0
-        · have := hcurI c' l0 hcA hl0
+        · have hcA' : gst2.cur = some c' := by
+            cases al with
+            | true => simp at hcA
+            | false => simpa using hcA
+          have := hcurI c' l0 hcA' hl0
           omega
     · intro hr
       obtain ⟨hr2, hcA⟩ := hg2 hr
